@@ -34,12 +34,16 @@ MANIFEST = dict(
          "an enumeration without members writes no C block, empty_enum_writes_no_c_block). value_text_preserved, int_literal_agrees: per expression. "
          "py_value_is_enumerator / py_module_items / py_class_items: the Python wrapper writes one constant per member whose value "
          "expression names that very C++ enumerator (scoped: static_cast<long>(scope::Enum::member)), so the value is the "
-         "C++ compiler's by construction; nothing is recomputed. No _partial statements. Lua emits no enumerators.",
+         "C++ compiler's by construction; nothing is recomputed. enum_off_for_language_writes_nothing: an enumeration "
+         "whose wrap_c / wrap_fortran / wrap_python flag is off (own option or inherited from its class) writes nothing "
+         "for that language; the block/value theorems hold under the flag of their own language. No _partial statements. "
+         "Lua emits no enumerators.",
     design="3 C11",
     note="Ties (every run): real parser tree + real EnumNode + real wrapc/wrapf/wrapp.wrap_enum items and their rendering "
          "by the real write_lines, and blocks cut from whole-program generated files, vs the compiled Lean driver "
          "(per-member names/values, whole C / Fortran blocks, Python items, wf of every real tree, block readers on the "
-         "real text). Oracles (implementation only): independent Python evaluators on all emitted texts; g++ on the "
+         "real text; the emitters with each wrap flag off, on the enum and on its class). Oracles (implementation only): a "
+         "switched-off emitter writes nothing and leaves the other languages unchanged; independent Python evaluators on all emitted texts; g++ on the "
          "original vs gcc -std=c99 on the emitted header text, gfortran -std=f2008 on the emitted parameters and a CPython "
          "extension built from the emitted Python lines; grammar-boundary table (21 C++ initialisers outside + - * /: "
          "shifts, | & ^ ~ %, char/hex/suffixed literals, ?:, comparisons, sizeof, qualified names are all rejected with "
@@ -65,6 +69,7 @@ THEOREMS = {
         "Shroud.Enum.int_literal_agrees",
         "Shroud.Enum.enum_blocks_preserved",
         "Shroud.Enum.enum_fortran_block",
+        "Shroud.Enum.enum_off_for_language_writes_nothing",
         "Shroud.Enum.py_value_is_enumerator",
         "Shroud.Enum.py_module_items",
         "Shroud.Enum.py_class_items",
@@ -484,17 +489,57 @@ def read_corpus():
 
 
 # ====================================================================== real side
-def build_real(scope, decl):
-    """parent node and EnumNode through the library path used by tests/test_ast.py."""
+def build_real(scope, decl, off=None, off_on="enum"):
+    """parent node and EnumNode through the library path used by tests/test_ast.py.  All three languages under
+    test are switched on (wrap_c / wrap_fortran default to true, wrap_python is set) unless `off` names one of
+    "c", "fortran", "python": then that wrap option is false on the enum itself (off_on="enum") or on its class
+    (off_on="class", scope "cls" only; the enum inherits it)."""
     from shroud import ast
-    lib = ast.LibraryNode()
+    lib = ast.LibraryNode(options=dict(wrap_python=True))
     ns = lib.add_namespace("ns1")
-    cls = ns.add_class("Cls")
+    offopt = {"wrap_" + off: False} if off else None
+    if off and off_on == "class":
+        cls = ns.add_class("Cls", options=dict(offopt))
+    else:
+        cls = ns.add_class("Cls")
     parent = {"lib": lib, "ns": ns, "cls": cls}[scope]
     if parent.nodename == "class":
         # wrapp.wrap_namespace evaluates this template for every class before any enum is wrapped
         parent.eval_template("PY_PyTypeObject")
+    if off and off_on == "enum":
+        return parent, parent.add_enum(decl, options=dict(offopt))
     return parent, parent.add_enum(decl)
+
+
+def emit_blocks(node):
+    """(C block, Fortran block, Python items) from the three real emitters and the real write_lines."""
+    from shroud import wrapc, wrapf, wrapp
+    wc = object.__new__(wrapc.Wrapc)
+    wc.enum_impl = []
+    wc.wrap_enum(None, node)
+    cblock = render_real(wc, list(wc.enum_impl), 0, node.options.C_line_length, "")
+    wf = object.__new__(wrapf.Wrapf)
+    fi = types.SimpleNamespace(enum_impl=[], module_use={})
+    wf.wrap_enum(None, node, fi)
+    fblock = render_real(wf, list(fi.enum_impl), 1, node.options.F_line_length, " &")
+    wp = object.__new__(wrapp.Wrapp)
+    wp.enum_impl = []
+    wp.wrap_enum(node)
+    return cblock, fblock, list(wp.enum_impl)
+
+
+def block_request_for(parent, node, flags="111"):
+    """`block` driver request computed from the parent's format fields only."""
+    e = common.enc
+    pf = parent.fmtdict
+    in_class = parent.nodename == "class"
+    nss = pf.namespace_scope + (pf.cxx_class + "::" if pf.get("cxx_class") else "")
+    ms = []
+    for m in node.ast.members:
+        ms.append(e(m.name) if m.value is None else e(m.name) + "=" + ";".join(enc_expr(m.value, [])))
+    return " ".join(["block", e(pf.C_prefix + pf.C_name_scope), e(pf.F_name_scope), e(node.ast.name),
+                     e(node.ast.scope or ""), e(nss), "1" if in_class else "0",
+                     e(pf.PY_PyTypeObject if in_class else ""), flags] + ms)
 
 
 def enc_expr(node, out):
@@ -635,7 +680,7 @@ def real_side(it):
                 ms.append(e(m.name) + "=" + ";".join(enc_expr(m.value, [])))
         it["request"] = " ".join(["enum", e(cpre), e(fpre), e(it["ename"]), "1" if node.ast.scope is not None else "0"] + ms)
         it["block_request"] = " ".join(["block", e(cpre), e(fpre), e(it["ename"]), e(node.ast.scope or ""), e(nss),
-                                        "1" if it["in_class"] else "0", e(pytype)] + ms)
+                                        "1" if it["in_class"] else "0", e(pytype), "111"] + ms)
     except ValueError as ex:
         return ("encode", str(ex))
     return None
@@ -1231,7 +1276,7 @@ def empty_enum_observation(ctx, d):
             nss = pf.namespace_scope + (pf.cxx_class + "::" if pf.get("cxx_class") else "")
             reqs.append(" ".join(["block", e(pf.C_prefix + pf.C_name_scope), e(pf.F_name_scope), e("E"),
                                   e(node.ast.scope or ""), e(nss), "1" if in_class else "0",
-                                  e(pf.PY_PyTypeObject if in_class else "")]))
+                                  e(pf.PY_PyTypeObject if in_class else ""), "111"]))
             reals.append((scope, decl, cblock, fblock, pyitems))
     bad = []
     if drv.available():
@@ -1260,6 +1305,61 @@ def empty_enum_observation(ctx, d):
     if rc != 0:
         ctx.fail("empty-enum:c-block", "enum E {} (legal C++) is written to the C header as %s, which gcc -std=c99 rejects: %s"
                  % (block, " ".join(out.split())[:200]), {"scope": "lib", "decl": "enum E {}"})
+
+
+WRAP_FLAG_DECLS = ["enum E { A = 010 }", "enum class E2 { a=1, b = a*2, c }", "enum Color { RED, Blue = RED - -2, green }"]
+
+
+def wrap_flag_tie(ctx):
+    """ff85eaa: an enumeration whose wrap_c / wrap_fortran / wrap_python option is off (on the enum, or inherited
+    from its class) writes nothing for that language and is unchanged for the others.  Tie: the three real emitters
+    vs the model's blocks under the same flags.  Oracle (implementation only): the switched-off emitter wrote nothing
+    and the others wrote what they write with all flags on."""
+    drv = common.Driver("drv_enum")
+    cases = []
+    for scope in SCOPES:
+        for decl in WRAP_FLAG_DECLS:
+            for li, lang in enumerate(("c", "fortran", "python")):
+                for off_on in (("enum", "class") if scope == "cls" else ("enum",)):
+                    cases.append((scope, decl, li, lang, off_on))
+    reqs, reals = [], []
+    nfail = 0
+    for scope, decl, li, lang, off_on in cases:
+        try:
+            parent, node = build_real(scope, decl, off=lang, off_on=off_on)
+            got = emit_blocks(node)
+            parent0, node0 = build_real(scope, decl)
+            allon = emit_blocks(node0)
+        except (Exception, SystemExit) as ex:  # noqa
+            ctx.tie_broken("wrap-flag-emitters", "%s | %s off=%s: %s: %s" % (scope, decl, lang, type(ex).__name__, ex))
+            return
+        ctx.count(1)
+        flags = "".join("0" if i == li else "1" for i in range(3))
+        reqs.append(block_request_for(parent, node, flags))
+        reals.append((scope, decl, lang, off_on, got))
+        expect = tuple([] if i == li else allon[i] for i in range(3))
+        if tuple(got) != expect and nfail < MAX_FAILS:
+            nfail += 1
+            what = ("`%s` (scope %s) with wrap_%s: false on the %s: the %s emitter wrote %r" % (decl, scope, lang, off_on, lang, got[li])
+                    if got[li] else
+                    "`%s` (scope %s) with wrap_%s: false on the %s changed another language's output" % (decl, scope, lang, off_on))
+            ctx.fail("wrap-flag:%s:%s:%s | %s" % (lang, off_on, scope, decl), what,
+                     {"scope": scope, "decl": decl, "off": lang, "off_on": off_on})
+    bad = []
+    if drv.available():
+        for (scope, decl, lang, off_on, got), ans in zip(reals, drv.run(reqs)):
+            p = ans.split(" ")
+            if p[0] != "ok" or len(p) < 6:
+                bad.append({"scope": scope, "decl": decl, "off": lang, "model": ans[:200]})
+                continue
+            model = (common.decs(p[1]), common.decs(p[2]), common.decs(p[3]))
+            if model != tuple(got):
+                bad.append({"scope": scope, "decl": decl, "off": lang, "on": off_on, "impl": list(got), "model": list(model)})
+    else:
+        bad.append("driver not built")
+    if bad:
+        ctx.tie_broken("wrap-flag-blocks", bad[:4])
+    ctx.note("wrap_flags", {"cases": len(cases), "tie_disagreements": len(bad), "oracle_failures": nfail})
 
 
 # ====================================================================== (D) range: the assumption "values fit int"
@@ -1644,6 +1744,7 @@ def run(ctx):
         ctx.note("python_name_collision", python_name_collision(d))
         boundary_oracle(ctx, d)
         empty_enum_observation(ctx, d)
+        wrap_flag_tie(ctx)
         range_oracle(ctx, d)
     finally:
         common.rmtree(d)
